@@ -37,11 +37,25 @@ def tag {α : Type} : Outcome α → String
   | err => "err"
   | panic => "panic"
 
+/-- `if <guard> { return Err(..) }` followed by the rest of the function -/
+@[inline] def guardThen {α : Type} (g : Outcome Bool) (k : Unit → Outcome α) : Outcome α :=
+  match g with
+  | ok b => if b then err else k ()
+  | err => err
+  | panic => panic
+
+@[simp] theorem guardThen_ok {α : Type} (b : Bool) (k : Unit → Outcome α) :
+    guardThen (ok b) k = if b then err else k () := rfl
+
 @[simp] theorem bind_ok {α β : Type} (a : α) (f : α → Outcome β) : (ok a).bind f = f a := rfl
 @[simp] theorem bind_err {α β : Type} (f : α → Outcome β) : (err : Outcome α).bind f = err := rfl
 @[simp] theorem bind_panic {α β : Type} (f : α → Outcome β) :
     (panic : Outcome α).bind f = panic := rfl
 @[simp] theorem map_ok {α β : Type} (a : α) (f : α → β) : (ok a).map f = ok (f a) := rfl
+@[simp] theorem map_err {α β : Type} (f : α → β) : (err : Outcome α).map f = err := rfl
+@[simp] theorem map_panic {α β : Type} (f : α → β) : (panic : Outcome α).map f = panic := rfl
+theorem map_map {α β γ : Type} (x : Outcome α) (f : α → β) (g : β → γ) :
+    (x.map f).map g = x.map (fun a => g (f a)) := by cases x <;> rfl
 
 end Outcome
 
@@ -109,39 +123,33 @@ def envGet : List Int → Nat → Outcome Int
   | x :: _, 0 => .ok x
   | _ :: xs, n + 1 => envGet xs n
 
+/-- Rust evaluates the left operand first: its panic wins; `err` marks an unrecognised
+    sub-expression. -/
+def binop (t : IntTy) (m : OvfMode) (f : Int → Int → Outcome Int) :
+    Outcome Int → Outcome Int → Outcome Int
+  | .ok x, .ok y => match f x y with
+    | .ok v => t.fit m v
+    | .err => .err
+    | .panic => .panic
+  | .panic, _ => .panic
+  | _, .panic => .panic
+  | _, _ => .err
+
+def castOp (t : IntTy) : Outcome Int → Outcome Int
+  | .ok x => .ok (t.wrap x)
+  | .err => .err
+  | .panic => .panic
+
 /-- evaluation of an extracted expression under profile `m` -/
 def IExpr.eval (m : OvfMode) (env : List Int) : IExpr → Outcome Int
   | .var i => envGet env i
   | .lit v => .ok v
-  | .add t a b =>
-    match a.eval m env, b.eval m env with
-    | .ok x, .ok y => t.fit m (x + y)
-    | .panic, _ => .panic
-    | _, .panic => .panic
-    | _, _ => .err
-  | .sub t a b =>
-    match a.eval m env, b.eval m env with
-    | .ok x, .ok y => t.fit m (x - y)
-    | .panic, _ => .panic
-    | _, .panic => .panic
-    | _, _ => .err
-  | .mul t a b =>
-    match a.eval m env, b.eval m env with
-    | .ok x, .ok y => t.fit m (x * y)
-    | .panic, _ => .panic
-    | _, .panic => .panic
-    | _, _ => .err
-  | .div t a b =>
-    match a.eval m env, b.eval m env with
-    | .ok x, .ok y => if y == 0 then .panic else t.fit m (Int.tdiv x y)
-    | .panic, _ => .panic
-    | _, .panic => .panic
-    | _, _ => .err
-  | .cast t a =>
-    match a.eval m env with
-    | .ok x => .ok (t.wrap x)
-    | .err => .err
-    | .panic => .panic
+  | .add t a b => binop t m (fun x y => .ok (x + y)) (a.eval m env) (b.eval m env)
+  | .sub t a b => binop t m (fun x y => .ok (x - y)) (a.eval m env) (b.eval m env)
+  | .mul t a b => binop t m (fun x y => .ok (x * y)) (a.eval m env) (b.eval m env)
+  | .div t a b => binop t m (fun x y => if y == 0 then .panic else .ok (Int.tdiv x y))
+      (a.eval m env) (b.eval m env)
+  | .cast t a => castOp t (a.eval m env)
   | .unrecognised => .err
 
 /-- Boolean conditions extracted from the Rust source (range guards). -/
@@ -160,29 +168,40 @@ inductive BExpr where
   | unrecognised
 deriving Repr, BEq
 
+def cmpOp (f : Int → Int → Bool) : Outcome Int → Outcome Int → Outcome Bool
+  | .ok x, .ok y => .ok (f x y)
+  | .panic, _ => .panic
+  | _, .panic => .panic
+  | _, _ => .err
+
+/-- Rust `||` short-circuits -/
+def orOp (b : Unit → Outcome Bool) : Outcome Bool → Outcome Bool
+  | .ok true => .ok true
+  | .ok false => b ()
+  | .err => .err
+  | .panic => .panic
+
+def andOp (b : Unit → Outcome Bool) : Outcome Bool → Outcome Bool
+  | .ok false => .ok false
+  | .ok true => b ()
+  | .err => .err
+  | .panic => .panic
+
+def notOp : Outcome Bool → Outcome Bool
+  | .ok v => .ok (!v)
+  | .err => .err
+  | .panic => .panic
+
 def BExpr.eval (m : OvfMode) (env : List Int) : BExpr → Outcome Bool
-  | .eq a b => match a.eval m env, b.eval m env with
-    | .ok x, .ok y => .ok (x == y) | .panic, _ => .panic | _, .panic => .panic | _, _ => .err
-  | .ne a b => match a.eval m env, b.eval m env with
-    | .ok x, .ok y => .ok (x != y) | .panic, _ => .panic | _, .panic => .panic | _, _ => .err
-  | .lt a b => match a.eval m env, b.eval m env with
-    | .ok x, .ok y => .ok (decide (x < y)) | .panic, _ => .panic | _, .panic => .panic | _, _ => .err
-  | .le a b => match a.eval m env, b.eval m env with
-    | .ok x, .ok y => .ok (decide (x ≤ y)) | .panic, _ => .panic | _, .panic => .panic | _, _ => .err
-  | .gt a b => match a.eval m env, b.eval m env with
-    | .ok x, .ok y => .ok (decide (x > y)) | .panic, _ => .panic | _, .panic => .panic | _, _ => .err
-  | .ge a b => match a.eval m env, b.eval m env with
-    | .ok x, .ok y => .ok (decide (x ≥ y)) | .panic, _ => .panic | _, .panic => .panic | _, _ => .err
-  | .or a b => match a.eval m env with
-    | .ok true => .ok true            -- Rust `||` short-circuits
-    | .ok false => b.eval m env
-    | .err => .err | .panic => .panic
-  | .and a b => match a.eval m env with
-    | .ok false => .ok false
-    | .ok true => b.eval m env
-    | .err => .err | .panic => .panic
-  | .not a => match a.eval m env with
-    | .ok v => .ok (!v) | .err => .err | .panic => .panic
+  | .eq a b => cmpOp (fun x y => x == y) (a.eval m env) (b.eval m env)
+  | .ne a b => cmpOp (fun x y => x != y) (a.eval m env) (b.eval m env)
+  | .lt a b => cmpOp (fun x y => decide (x < y)) (a.eval m env) (b.eval m env)
+  | .le a b => cmpOp (fun x y => decide (x ≤ y)) (a.eval m env) (b.eval m env)
+  | .gt a b => cmpOp (fun x y => decide (x > y)) (a.eval m env) (b.eval m env)
+  | .ge a b => cmpOp (fun x y => decide (x ≥ y)) (a.eval m env) (b.eval m env)
+  | .or a b => orOp (fun _ => b.eval m env) (a.eval m env)
+  | .and a b => andOp (fun _ => b.eval m env) (a.eval m env)
+  | .not a => notOp (a.eval m env)
   | .absent => .ok false
   | .unrecognised => .err
 
